@@ -389,6 +389,19 @@ theorem inv_step {s s' : St} {tid : Nat} {op : Op} (hinv : Inv s) (h : step s ti
       ⟨failSync_of_eq hinv.sync rfl rfl, ⟨hinv.held.1, hinv.held.2⟩⟩
     refine inv_stepped hinv' tid false _ ?_ h
     intro l st t loc; simp [failsAt]
+  | attachBegin filename d asImage =>
+    simp only [step] at h; injection h with h; subst h
+    exact ⟨failSync_of_eq hinv.sync rfl rfl, ⟨hinv.held.1, hinv.held.2⟩⟩
+  | attachEnd =>
+    simp only [step] at h
+    cases hf : s.prepared.find? (fun p => p.tid == tid) with
+    | none => rw [hf] at h; cases h
+    | some p =>
+      rw [hf] at h; simp only at h
+      have hinv' : Inv { s with prepared := s.prepared.eraseP (fun p => p.tid == tid) } :=
+        ⟨failSync_of_eq hinv.sync rfl rfl, ⟨hinv.held.1, hinv.held.2⟩⟩
+      refine inv_stepped hinv' tid false _ ?_ h
+      intro l st t loc; simp [failsAt]
   | threadCreate newTid =>
     simp only [step, withCursor] at h
     cases hc : getCursor s tid with
@@ -459,6 +472,12 @@ theorem inv_step {s s' : St} {tid : Nat} {op : Op} (hinv : Inv s) (h : step s ti
       | some d =>
         rw [hst] at h; simp only at h; injection h with h; subst h
         exact inv_store tid hinv hc (helper_endStepIfAny s tid c)
+
+/-- the atomic `.attach` is `attachBegin` immediately followed by `attachEnd` on the same thread -/
+theorem step_attach_eq (s : St) (tid : Nat) (filename d : String) (asImage : Bool) :
+    step s tid (.attach filename d asImage) =
+      (step s tid (.attachBegin filename d asImage)).bind (fun s1 => step s1 tid .attachEnd) := by
+  simp [step, Except.bind]
 
 theorem inv_runOps : ∀ (ops : List (Nat × Op)) (s s' : St), Inv s → runOps s ops = .ok s' → Inv s' := by
   intro ops
